@@ -7,8 +7,8 @@ TD0 (Teledisk) container model for property C09 — src/img/td0.rs.
   the bounds-checked macros `verified_get_byte!` / `verified_get_slice!`; `none` = `Err(SectorAccess)`.
   The two `while ans.len() < sector_size` loops consume at least one byte of `data` per iteration or
   return `Err`, so `data.length + 1` is enough fuel; running out of fuel is unreachable and maps to `none`.
-* `Sector`, `Track`, `Image`, `toBytesNormal`, `fromBytesNormal` ↔ the *normal* (not LZHUF compressed)
-  layer of `Td0::to_bytes` / `Td0::from_bytes` (td0.rs:757-914).  The advanced compression
+* `Sector`, `Track`, `Image`, `toBytesNormal`, `fromBytesNormal`, `canon` ↔ the *normal* (not LZHUF compressed)
+  layer of `Td0::to_bytes` / `Td0::from_bytes` (td0.rs), `encodeText`/`decodeText` ↔ the LF/CRLF ↔ NUL coding of the notes.  The advanced compression
   (`retrocompressor::td0::{compress_slice, expand_slice}`) is outside /repo and is a parameter.
 
 `u16` arithmetic is modelled where the Rust truncates (`sector_size as u16`).
@@ -83,6 +83,35 @@ def unpack (shift : Nat) (data : List Nat) : Option (List Nat) :=
 
 /-! ### the normal (uncompressed) container layer -/
 
+/-- `str.replace("\r\n","\x00")` on the UTF-8 bytes (CR, LF, NUL never occur inside a multi-byte sequence) -/
+def replCRLF (z : Nat) : List Nat → List Nat
+  | [] => []
+  | [b] => [b]
+  | a :: b :: r => if a = 13 ∧ b = 10 then z :: replCRLF z r else a :: replCRLF z (b :: r)
+
+/-- `to_bytes` (td0.rs): `d.replace("\r\n","\x00").replace("\n","\x00")` -/
+def encodeText (t : List Nat) : List Nat := (replCRLF 0 t).map (fun b => if b = 10 then 0 else b)
+
+/-- `s.contains("\r\n")` negated -/
+def noCRLF : List Nat → Bool
+  | [] => true
+  | [_] => true
+  | a :: b :: r => !(a == 13 && b == 10) && noCRLF (b :: r)
+
+/-- `normalize_notes` (td0.rs): `while s.contains("\r\n") { s = s.replace("\r\n","\n") }`; every pass that
+finds a pair shortens the string, so `length` passes are enough fuel -/
+def normLoop : Nat → List Nat → List Nat
+  | 0, t => t
+  | f + 1, t => if noCRLF t then t else normLoop f (replCRLF 10 t)
+
+def normalizeNotes (t : List Nat) : List Nat := normLoop t.length t
+
+/-- `from_bytes` (td0.rs): `normalize_notes(text.replace("\x00","\n"))` -/
+def decodeText (e : List Nat) : List Nat := normalizeNotes (e.map (fun b => if b = 0 then 10 else b))
+
+/-- `put_metadata` for `/td0/comment/notes`: a NUL is refused (`none`), otherwise the normalised notes -/
+def putNotes (v : List Nat) : Option (List Nat) := if 0 ∈ v then none else some (normalizeNotes v)
+
 structure Sector where
   cyl : Nat
   head : Nat
@@ -103,10 +132,11 @@ structure Track where
 deriving DecidableEq, Repr
 
 structure Comment where
-  crc : Nat
-  len : Nat
+  /-- the two CRC bytes and the two length bytes of the comment header as last written / read -/
+  crc : List Nat
+  len : List Nat
   stamp : List Nat
-  /-- bytes as stored (newlines already replaced by NUL) -/
+  /-- the notes as held in memory (`comment_data`): line ends are LF -/
   text : List Nat
 deriving DecidableEq, Repr
 
@@ -114,33 +144,57 @@ structure Image where
   /-- bytes 2..10 of the image header: sequence, check_sequence, version, data_rate, drive_type,
   stepping, dos_alloc_flag, sides -/
   hdr : List Nat
+  /-- the two CRC bytes of the image header (`header.crc`, rewritten by `to_bytes`) -/
+  hcrc : List Nat
   comment : Option Comment
   tracks : List Track
 deriving DecidableEq, Repr
 
-/-- `Sector::to_bytes` (td0.rs:420-435): the CRC byte is recomputed when the sector unpacks -/
+/-- the CRC byte `Sector::to_bytes` (td0.rs:420-435) writes: recomputed when the sector unpacks -/
+def sectorCrc (s : Sector) : Nat :=
+  if s.flags &&& NO_DATA_MASK > 0 then s.crc
+  else match unpack s.shift s.data with
+    | some d => crc16 0 d % 256
+    | none => s.crc
+
 def sectorToBytes (s : Sector) : List Nat :=
-  let crc :=
-    if s.flags &&& NO_DATA_MASK > 0 then s.crc
-    else match unpack s.shift s.data with
-      | some d => crc16 0 d % 256
-      | none => s.crc
-  [s.cyl, s.head, s.id, s.shift, s.flags, crc] ++ s.data
+  [s.cyl, s.head, s.id, s.shift, s.flags, sectorCrc s] ++ s.data
+
+def trackCrc (t : Track) : Nat := crc16 0 [t.nsec, t.cyl, t.head] % 256
 
 /-- `Track::to_bytes` (td0.rs:461-470) -/
 def trackToBytes (t : Track) : List Nat :=
-  [t.nsec, t.cyl, t.head, crc16 0 [t.nsec, t.cyl, t.head] % 256] ++ (t.sectors.map sectorToBytes).flatten
+  [t.nsec, t.cyl, t.head, trackCrc t] ++ (t.sectors.map sectorToBytes).flatten
+
+/-- `to_bytes` first makes the comment flag (bit 7 of `stepping`, header byte 7) agree with whether a
+comment block is written -/
+def syncHdr (hdr : List Nat) (hasComment : Bool) : List Nat :=
+  match hdr with
+  | [a, b, c, d, e, st, g, h] => [a, b, c, d, e, if hasComment then st ||| COMMENT_MASK else st &&& (COMMENT_MASK ^^^ 255), g, h]
+  | _ => hdr
+
+def head10 (x : Image) : List Nat := [84, 68] ++ syncHdr x.hdr x.comment.isSome
+
+def commentBody (c : Comment) : List Nat :=
+  le16 ((encodeText c.text).length % 65536) ++ c.stamp ++ encodeText c.text
 
 /-- `Td0::to_bytes` up to (not including) `compress_slice`, signature `TD` -/
 def toBytesNormal (x : Image) : List Nat :=
-  let h10 := [84, 68] ++ x.hdr
-  let head := h10 ++ le16 (crc16 0 h10)
+  let head := head10 x ++ le16 (crc16 0 (head10 x))
   let com := match x.comment with
-    | some c =>
-      let body := le16 (c.text.length % 65536) ++ c.stamp ++ c.text
-      le16 (crc16 0 body) ++ body
+    | some c => le16 (crc16 0 (commentBody c)) ++ commentBody c
     | none => []
   head ++ com ++ (x.tracks.map trackToBytes).flatten ++ [0xFF] ++ TRAILER
+
+/-- the object after `to_bytes(&mut self)`: header flag, header CRC, comment CRC and length are written
+back into `self`; additionally (what a re-parse sees) the per-track and per-sector CRC bytes -/
+def canonSector (s : Sector) : Sector := { s with crc := sectorCrc s }
+def canonTrack (t : Track) : Track := { t with crc := trackCrc t, sectors := t.sectors.map canonSector }
+def canon (x : Image) : Image :=
+  { hdr := syncHdr x.hdr x.comment.isSome
+    hcrc := le16 (crc16 0 (head10 x))
+    comment := x.comment.map (fun c => { c with crc := le16 (crc16 0 (commentBody c)), len := le16 ((encodeText c.text).length % 65536) })
+    tracks := x.tracks.map canonTrack }
 
 /-- read `n` sector records (td0.rs:824-852); `none` = `Err` -/
 def readSectors : Nat → List Nat → Option (List Sector × List Nat)
@@ -187,7 +241,8 @@ def fromBytesNormal (bytes : List Nat) : Option Image :=
   if bytes.length < 12 then none else
   if bytes.take 2 ≠ [84, 68] then none else
   let h10 := bytes.take 10
-  if (bytes.drop 10).take 2 ≠ le16 (crc16 0 h10) then none else
+  let hcrc := (bytes.drop 10).take 2
+  if hcrc ≠ le16 (crc16 0 h10) then none else
   let hdr := h10.drop 2
   let stepping := hdr.getD 5 0
   let r := bytes.drop 12
@@ -199,15 +254,15 @@ def fromBytesNormal (bytes : List Nat) : Option Image :=
       let len := unle16 l0 l1
       let r3 := r2.drop 6
       if r3.length < len then none else
-      let text := r3.take len
-      if unle16 c0 c1 ≠ crc16 0 ([l0, l1] ++ stamp ++ text) then none else
+      let raw := r3.take len
+      if [c0, c1] ≠ le16 (crc16 0 ([l0, l1] ++ stamp ++ raw)) then none else
       match readTracks bytes.length (r3.drop len) with
-      | some ts => some { hdr := hdr, comment := some { crc := unle16 c0 c1, len := len, stamp := stamp, text := text }, tracks := ts }
+      | some ts => some { hdr := hdr, hcrc := hcrc, comment := some { crc := [c0, c1], len := [l0, l1], stamp := stamp, text := decodeText raw }, tracks := ts }
       | none => none
     | _ => none
   else
     match readTracks bytes.length r with
-    | some ts => some { hdr := hdr, comment := none, tracks := ts }
+    | some ts => some { hdr := hdr, hcrc := hcrc, comment := none, tracks := ts }
     | none => none
 
 end A2Verif.Model.C09Td0
